@@ -464,6 +464,39 @@ pub fn serialize_docs(docs: &[Node], surface: &[u8], cfg: &SurfaceCfg) -> (Vec<V
     (bytes, vs, st)
 }
 
+/// a second fixed surface for the small-scope search of C11: empty elements written as start/end pair,
+/// character data as CDATA, a comment and a PI after every start tag, attribute values replaced, prolog added
+pub fn canonical_variant(root: &Node) -> String {
+    fn go(n: &Node, out: &mut String) {
+        out.push('<');
+        out.push_str(&n.name);
+        for a in &n.attrs {
+            out.push_str("\n  ");
+            out.push_str(a);
+            out.push_str(" = 'other &amp; value'");
+        }
+        out.push('>');
+        if !n.items.is_empty() {
+            out.push_str("<!-- c --><?pi?>");
+        }
+        for it in &n.items {
+            match it {
+                Item::Chars { blank: true } => out.push_str("<![CDATA[ ]]>"),
+                Item::Chars { blank: false } => out.push_str("<![CDATA[<y>]]>"),
+                Item::EmptyCData => out.push_str("<![CDATA[]]>"),
+                Item::Child(c) => go(c, out),
+            }
+        }
+        out.push_str("</");
+        out.push_str(&n.name);
+        out.push_str(" >");
+    }
+    let mut s = String::from("<?xml version=\"1.0\"?>\n<!DOCTYPE x>\n");
+    go(root, &mut s);
+    s.push('\n');
+    s
+}
+
 /// canonical, surface-free serialisation (used for samples and replay files)
 pub fn canonical(root: &Node) -> String {
     fn go(n: &Node, out: &mut String) {
